@@ -30,6 +30,11 @@ static void prf(void)
             { ascon_prf_state_t s; ascon_prf_init(&s, key); ascon_prf_absorb(&s, il ? msg : 0, il); ascon_prf_squeeze(&s, o, ol); ascon_prf_free(&s); }
             cmpo("prf:incremental", o, exp, ol, "inlen/outlen", il, ol, 0, 0);
             memset(o, 0xAA, ol);
+            /* the same computation with input and output each given in several calls (one empty); split points vary with the shape */
+            { size_t i1 = ((size_t)il * 3 + ol + 1) % ((size_t)il + 1), o1 = ((size_t)ol * 5 + il * 3 + 2) % ((size_t)ol + 1), o2 = o1 + (ol - o1) / 2; ascon_prf_state_t s;
+              ascon_prf_init(&s, key); ascon_prf_absorb(&s, msg, i1); ascon_prf_absorb(&s, msg + i1, 0); ascon_prf_absorb(&s, msg + i1, il - i1);
+              ascon_prf_squeeze(&s, o, o1); ascon_prf_squeeze(&s, o + o1, 0); ascon_prf_squeeze(&s, o + o1, o2 - o1); ascon_prf_squeeze(&s, o + o2, ol - o2); ascon_prf_free(&s);
+              cmpo("prf:incremental-chunked", o, exp, ol, "inlen/outlen/split-in/split-out", il, ol, i1, o1); memset(o, 0xAA, ol); }
             uint8_t *e2 = malloc(ol + 1); ref_prf(key, ol, msg, il, e2, ol);
             ascon_prf_fixed(o, ol, il ? msg : 0, il, key);
             cmpo("prf:fixed", o, e2, ol, "inlen/outlen", il, ol, 0, 0);
@@ -133,6 +138,10 @@ static void hmac(void)
             if (A) { ascon_hmaca_state_t s; ascon_hmaca_init(&s, key, kl); ascon_hmaca_update(&s, msg, ml); ascon_hmaca_finalize(&s, key, kl, o); ascon_hmaca_free(&s); }
             else { ascon_hmac_state_t s; ascon_hmac_init(&s, key, kl); ascon_hmac_update(&s, msg, ml); ascon_hmac_finalize(&s, key, kl, o); ascon_hmac_free(&s); }
             cmpo(A ? "hmaca:incremental" : "hmac:incremental", o, e, 32, "keylen/msglen", kl, ml, 0, 0);
+            { size_t i1 = ((size_t)ml * 3 + kl + 1) % ((size_t)ml + 1); memset(o, 0xAA, 32);
+              if (A) { ascon_hmaca_state_t s; ascon_hmaca_init(&s, key, kl); ascon_hmaca_update(&s, msg, i1); ascon_hmaca_update(&s, msg + i1, 0); ascon_hmaca_update(&s, msg + i1, ml - i1); ascon_hmaca_finalize(&s, key, kl, o); ascon_hmaca_free(&s); }
+              else { ascon_hmac_state_t s; ascon_hmac_init(&s, key, kl); ascon_hmac_update(&s, msg, i1); ascon_hmac_update(&s, msg + i1, 0); ascon_hmac_update(&s, msg + i1, ml - i1); ascon_hmac_finalize(&s, key, kl, o); ascon_hmac_free(&s); }
+              cmpo(A ? "hmaca:incremental-chunked" : "hmac:incremental-chunked", o, e, 32, "keylen/msglen/split", kl, ml, i1, 0); }
             hx_free(o); hx_stat("nontrivial", 1);
         }
     }
